@@ -517,3 +517,66 @@ def r9(ctx):
             defs = [s.value for s in walk_no_nested(f.node) if isinstance(s, ast.Assign) and u(s.targets[0]) == roots[0]]
             ctx.check(len(defs) == 1 and u(defs[0]) == canon, key + ":canonical", f"the root must be `{canon}` (the CodeBase resolves its directories; file names are reported relative to this root): {[u(d) for d in defs]}", f.loc())
     ctx.floor(3)
+
+
+SCHEMA_CASES = {
+    # schema file -> [(instance, accepted?, what the consumer does with it)]
+    "schema/analysis.schema": [
+        ({"platform": {"cpu": {"commands": "cpu.json"}}}, True, "one platform with its compilation database"),
+        ({"codebase": {"exclude": ["*.h"]}, "platform": {"cpu": {"commands": "a.json"}, "gpu": {"commands": "b.json"}}}, True, "exclude list and two platforms"),
+        ({"platform": {"cpu": {"commands": ["a.json"]}}}, False, "`commands` is handed to load_database() as one path"),
+        ({"platform": {"cpu": {"commands": "a.json", "command": "b.json"}}}, False, "a misspelt key in a platform table would be ignored silently"),
+        ({"platform": {"cpu": "a.json"}}, False, "the front ends read analysis['platform'][name]['commands']"),
+        ({"platforms": {"cpu": {"commands": "a.json"}}}, True, "(unknown top-level tables are admitted today - `additionalProperties` sits inside `properties`; no property of this study forbids it: recorded as it is)"),
+        ({"codebase": {"excludes": ["*.h"]}}, True, "(the codebase table is open: recorded as it is today)"),
+    ],
+    "schema/compilation-database.schema": [
+        ([{"directory": "/b", "file": "a.c", "command": "gcc -c a.c"}], True, "command form"),
+        ([{"directory": "/b", "file": "a.c", "arguments": ["gcc", "-c", "a.c"]}], True, "arguments form"),
+        ([{"directory": "/b", "file": "a.c", "arguments": "gcc -c a.c"}], False, "`arguments` is indexed as a list: a string would be read character by character"),
+        ([{"directory": "/b", "file": "a.c", "command": ["gcc", "-c", "a.c"]}], False, "`command` is split with shlex"),
+        ([{"directory": "/b", "command": "gcc -c a.c"}], True, "(an entry without `file` is admitted by the schema today and raises KeyError in CompileCommand.from_json - the compile-database format requires `file`, the properties of this study say nothing about entries without it: recorded as it is)"),
+        ({"directory": "/b", "file": "a.c", "command": "gcc -c a.c"}, False, "the database is a list of entries"),
+    ],
+    "schema/coverage.schema": [
+        ([{"file": "a.c", "id": "00", "used_lines": [1, 2], "unused_lines": []}], True, "one record"),
+        ([{"file": "a.c", "id": "00", "used_lines": [1, 2]}], False, "every record states both line lists"),
+        ([{"file": "a.c", "id": "00", "used_lines": ["1"], "unused_lines": []}], False, "line numbers are integers"),
+        ([{"file": "a.c", "used_lines": [1], "unused_lines": []}], False, "every record carries the file's content id"),
+    ],
+    "schema/cbiconfig.schema": [
+        ({"compiler": {"mycc": {"alias_of": "gcc"}}}, True, "an alias"),
+        ({"compiler": {"mycc": {"options": ["-DX"], "parser": [{"flags": ["-fx"], "action": "append_const", "dest": "modes", "const": "x"}], "modes": [{"name": "x", "defines": ["X"]}]}}}, True, "a full definition"),
+        ({"compiler": {"mycc": {"alias_of": "gcc", "options": ["-DX"]}}}, False, "an alias carries nothing else (its options would be dropped silently)"),
+        ({"compiler": {"mycc": {"options": "-DX"}}}, False, "`options` is appended to argv as a list"),
+        ({"compiler": {"mycc": {"modes": [{"defines": ["X"]}]}}}, False, "a mode without a name cannot be selected"),
+        ({"compiler": {"mycc": {"parser": [{"flags": "-fx", "action": "append_const", "dest": "modes", "const": "x"}]}}}, False, "`flags` is splatted into add_argument(): a string would register one option per character"),
+        ({"compiler": {"mycc": {"parser": [{"flags": ["-fx"], "actoin": "append_const"}]}}}, False, "a misspelt key in a parser rule would be ignored silently"),
+        ({"compilers": {"mycc": {"alias_of": "gcc"}}}, True, "(unknown top-level tables are admitted today: recorded as it is)"),
+    ],
+}
+
+
+@rule("C13.R11", "every schema admits exactly the shapes its loader consumes (acceptance set per schema file)")
+def r11(ctx):
+    """The loaders index what they have validated without further checks (`entry['file']`, `excludes += ...`,
+    `add_argument(*flags)`): a schema that admits another shape turns a configuration error, which is reported and
+    refused today, into a silently different analysis.  Each schema file is therefore run (jsonschema, as a library:
+    no repository code) over a fixed set of instances whose verdict follows from what the consumer does."""
+    import jsonschema
+
+    repo = ctx.repo
+    n = 0
+    for fname, cases in SCHEMA_CASES.items():
+        sch = repo.json(fname)
+        for i, (inst, want, why) in enumerate(cases):
+            n += 1
+            try:
+                jsonschema.validate(instance=inst, schema=sch)
+                got = True
+            except jsonschema.exceptions.ValidationError:
+                got = False
+            except jsonschema.exceptions.SchemaError as e:
+                raise AnalysisError(f"{fname}: not a valid schema: {e.message[:80]}")
+            ctx.check(got is want, f"{fname}:case{i}:{'accept' if want else 'reject'}", f"{fname} {'accepts' if got else 'rejects'} `{str(inst)[:90]}` - expected {'accepted' if want else 'rejected'}: {why}", f"codebasin/{fname}")
+    ctx.floor(20)
